@@ -70,7 +70,9 @@ Lemma user_apply_is_map u s out alph :
   (forall r, ulookup u r = Some (uapply u r)).
 Proof.
   unfold reduce_user. destruct (user_accepted u) eqn:Ha; [|discriminate].
-  intros H. inversion H; subst. split; [reflexivity|]. split; [apply map_length|].
+  set (a := map (uapply u) s). set (b := dedup _). intros H.
+  assert (out = a /\ alph = b) as [-> ->] by (split; congruence). subst a b.
+  split; [reflexivity|]. split; [apply map_length|].
   intros r. apply user_accept_iff with (r := r) in Ha. destruct Ha as [y Hy].
   unfold uapply. rewrite Hy. reflexivity.
 Qed.
@@ -98,8 +100,22 @@ Lemma user_alphabet_is_image u s out alph :
   NoDup alph /\ forall a, In a alph <-> exists r, uapply u r = a.
 Proof.
   unfold reduce_user. destruct (user_accepted u); [|discriminate].
-  intros H. inversion H; subst. split; [apply dedup_NoDup|].
+  set (a := map (uapply u) s). set (b := dedup _). intros H.
+  assert (out = a /\ alph = b) as [-> ->] by (split; congruence). subst a b.
+  split; [apply dedup_NoDup|].
   intros a. rewrite dedup_In, in_map_iff. split.
   - intros [r [Hr _]]. exists r. exact Hr.
   - intros [r Hr]. exists r. split; [exact Hr | apply all20_complete].
 Qed.
+
+Lemma predef_rejects_notin allowed f k s : ~ In k allowed -> reduce_predef allowed f k s = None.
+Proof.
+  intros H. apply predef_rejects. destruct (memZ k allowed) eqn:E; [|reflexivity].
+  apply memZ_In in E. contradiction.
+Qed.
+
+Lemma predef_accepts_in allowed f k s : In k allowed -> reduce_predef allowed f k s = Some (map (f k) s).
+Proof. intros H. apply predef_accepts. apply memZ_In. exact H. Qed.
+
+Lemma C12_example : valid_reduction_b 2 (fun r => if mem_aa r (grp "EDNQKRH") then Glu else Leu) = true.
+Proof. vm_compute. reflexivity. Qed.
